@@ -25,20 +25,31 @@
         else { assert((rp - (b - 523_776)) / 523_776 == a + 1); }
     }
     pub open spec fn wrapq(x: int) -> int { if x < 0 { x + Q } else if x >= Q { x - Q } else { x } }
-    // UseHint(MakeHint(z, r), r) == HighBits(r + z) when |z| <= gamma2  (rp = r mod q, zeta = z mod+- q)
+    // UseHint(MakeHint(z, r), r) == HighBits(r + z) when |z| <= gamma2  (rp = r mod q, zeta = z mod+- q); one query per gamma2
+    pub proof fn lemma_use_make_hint_a(rp: int, zeta: int)
+        requires 0 <= rp < Q, -95_232 <= zeta <= 95_232,
+        ensures ({ let g = 95_232int; let vp = wrapq(rp + zeta);
+                   spec_use_hint(g, if spec_high_bits(g, rp) != spec_high_bits(g, vp) { 1int } else { 0int }, rp) == spec_high_bits(g, vp) }),
+    {
+        let vp = wrapq(rp + zeta);
+        lemma_dec_form_a(rp); lemma_dec_form_a(vp);
+        assert((Q - 1) / (2 * 95_232int) == 44) by { assert(8_380_416int / 190_464int == 44) by (compute); }
+    }
+    pub proof fn lemma_use_make_hint_b(rp: int, zeta: int)
+        requires 0 <= rp < Q, -261_888 <= zeta <= 261_888,
+        ensures ({ let g = 261_888int; let vp = wrapq(rp + zeta);
+                   spec_use_hint(g, if spec_high_bits(g, rp) != spec_high_bits(g, vp) { 1int } else { 0int }, rp) == spec_high_bits(g, vp) }),
+    {
+        let vp = wrapq(rp + zeta);
+        lemma_dec_form_b(rp); lemma_dec_form_b(vp);
+        assert((Q - 1) / (2 * 261_888int) == 16) by { assert(8_380_416int / 523_776int == 16) by (compute); }
+    }
     pub proof fn lemma_use_make_hint(g: int, rp: int, zeta: int)
         requires gamma2_ok(g), 0 <= rp < Q, -g <= zeta <= g,
         ensures ({ let vp = wrapq(rp + zeta);
                    spec_use_hint(g, if spec_high_bits(g, rp) != spec_high_bits(g, vp) { 1int } else { 0int }, rp) == spec_high_bits(g, vp) }),
     {
-        let vp = wrapq(rp + zeta);
-        if g == 95_232 {
-            lemma_dec_form_a(rp); lemma_dec_form_a(vp);
-            assert((Q - 1) / (2 * 95_232int) == 44) by { assert(8_380_416int / 190_464int == 44) by (compute); }
-        } else {
-            lemma_dec_form_b(rp); lemma_dec_form_b(vp);
-            assert((Q - 1) / (2 * 261_888int) == 16) by { assert(8_380_416int / 523_776int == 16) by (compute); }
-        }
+        if g == 95_232 { lemma_use_make_hint_a(rp, zeta); } else { lemma_use_make_hint_b(rp, zeta); }
     }
     // HighBits(r) == HighBits(r + s) when |s| <= beta and |LowBits(r)| < gamma2 - beta
     pub proof fn lemma_high_bits_stable(g: int, vp: int, eps: int, beta: int)
